@@ -1,0 +1,57 @@
+//go:build verif
+
+package syncq
+
+// Contracts for govc (contract-based deductive verification, see /verif/DESIGN.md).
+// Comments only; compiled only with the build tag `verif`.
+
+//@ arith int
+//@ property C12 C13
+//
+// The queue content is the ghost sequence buffer.qitems[qhead .. qtail) of the eapache queue; everything
+// (content, closed, the condition variable's ghost counters) is protected by `lock`.
+//@ guarded SyncQueue.closed by SyncQueue.lock
+//@ cond SyncQueue.popable uses SyncQueue.lock
+//@ monitor SyncQueue.lock
+//@   havoc self.buffer.qitems, self.buffer.qhead, self.buffer.qtail
+//@   invariant #shape self.buffer != nil && self.popable != nil && 0 <= self.buffer.qhead && self.buffer.qhead <= self.buffer.qtail && sleepers(self.popable) >= 0 && woken(self.popable) >= 0
+//@   invariant #closewakesall self.closed ==> sleepers(self.popable) == 0
+//@   invariant #nolostwakeup !self.closed && sleepers(self.popable) > 0 ==> self.buffer.qtail - self.buffer.qhead <= woken(self.popable)
+//
+//@ pure qlen(q *SyncQueue) int = q.buffer.qtail - q.buffer.qhead
+//
+//@ func SyncQueue.Push
+//@   requires !held(q.lock) && q.buffer != nil && q.popable != nil
+//@   ensures #dropped cs(q.closed) ==> q.buffer.qtail == cs(q.buffer.qtail) && q.buffer.qhead == cs(q.buffer.qhead) && q.buffer.qitems == cs(q.buffer.qitems)
+//@   ensures #appended !cs(q.closed) ==> q.buffer.qtail == cs(q.buffer.qtail) + 1 && q.buffer.qhead == cs(q.buffer.qhead) && q.buffer.qitems == store(cs(q.buffer.qitems), cs(q.buffer.qtail), v)
+//@   ensures #closedsame q.closed == cs(q.closed)
+//@   modifies SyncQueue.closed, q.buffer.qitems, q.buffer.qhead, q.buffer.qtail
+//
+//@ func SyncQueue.Pop
+//@   requires !held(q.lock) && q.buffer != nil && q.popable != nil
+//@   ensures #fifo cs(qlen(q)) > 0 ==> v == cs(q.buffer.qitems[q.buffer.qhead]) && q.buffer.qhead == cs(q.buffer.qhead) + 1 && q.buffer.qtail == cs(q.buffer.qtail) && q.buffer.qitems == cs(q.buffer.qitems)
+//@   ensures #closedempty cs(qlen(q)) == 0 ==> v == nil && cs(q.closed) && q.buffer.qhead == cs(q.buffer.qhead) && q.buffer.qtail == cs(q.buffer.qtail)
+//@   modifies SyncQueue.closed, q.buffer.qitems, q.buffer.qhead, q.buffer.qtail
+//@   loop 1
+//@     invariant wheld(q.lock) && c == q.popable && buffer == q.buffer && q.buffer != nil
+//@     invariant #inv 0 <= q.buffer.qhead && q.buffer.qhead <= q.buffer.qtail && sleepers(q.popable) >= 0 && woken(q.popable) >= 0 && (q.closed ==> sleepers(q.popable) == 0) && (!q.closed && sleepers(q.popable) > 0 ==> qlen(q) <= woken(q.popable) + 1)
+//
+//@ func SyncQueue.TryPop
+//@   requires !held(q.lock) && q.buffer != nil && q.popable != nil
+//@   ensures #fifo cs(qlen(q)) > 0 ==> ok && v == cs(q.buffer.qitems[q.buffer.qhead]) && q.buffer.qhead == cs(q.buffer.qhead) + 1 && q.buffer.qtail == cs(q.buffer.qtail) && q.buffer.qitems == cs(q.buffer.qitems)
+//@   ensures #empty cs(qlen(q)) == 0 ==> v == nil && ok == cs(q.closed) && q.buffer.qhead == cs(q.buffer.qhead) && q.buffer.qtail == cs(q.buffer.qtail)
+//@   modifies SyncQueue.closed, q.buffer.qitems, q.buffer.qhead, q.buffer.qtail
+//
+//@ func SyncQueue.Len
+//@   requires !held(q.lock) && q.buffer != nil && q.popable != nil
+//@   ensures l == cs(qlen(q)) && qlen(q) == cs(qlen(q))
+//@   modifies SyncQueue.closed, q.buffer.qitems, q.buffer.qhead, q.buffer.qtail
+//
+//@ func SyncQueue.Close
+//@   requires !held(q.lock) && q.buffer != nil && q.popable != nil
+//@   ensures #closed q.closed && q.buffer.qhead == cs(q.buffer.qhead) && q.buffer.qtail == cs(q.buffer.qtail) && q.buffer.qitems == cs(q.buffer.qitems)
+//@   modifies SyncQueue.closed, q.buffer.qitems, q.buffer.qhead, q.buffer.qtail
+//
+//@ func NewSyncQueue
+//@   ensures result != nil && isfresh(result) && result.buffer != nil && result.popable != nil && !result.closed && qlen(result) == 0 && sleepers(result.popable) == 0 && woken(result.popable) == 0
+//@   modifies
